@@ -424,7 +424,7 @@ def check(run):
     dis_total = dis + ops_dis
     run.corr["distinct"] = len(set(c for _, c in cases))
     run.corr["disagreements"] = dis_total
-    run.corr["rule"] = ("designed programs whose jump target needs 256-bit wrap-around, wide addmod/mulmod, mixed-sign smod, byte index >= 32, shift >= 256, sar, signextend, exp (literal and symbolic), "
+    run.corr["rule"] = ("designed programs whose jump target needs 256-bit wrap-around, wide addmod/mulmod, mixed-sign smod, byte index >= 32, shift >= 256, sar, signextend, exp (literal and symbolic; literal base with an open exponent masked to its top bits or multiplied by 2^254), "
                         "entry-stack targets/conditions, repeated reads (dup of one read vs two reads), repeated environment words and calldataloads, running off the end, truncated push, 0x5b in push data; "
                         "random structured programs; every opcode feeding a jump target / a branch condition / taken from the entry stack; "
                         "implementation initial and refined DOT vs Model/Pipeline.v (+ z3 on the model's queries); model terms vs real z3 terms; distinct = distinct byte strings")
